@@ -84,7 +84,11 @@ def build_t(ops, heap, root=T):
         elif op == 'X':
             t = t.__starstar__()
         elif op == 'P':
-            t = glom.core._t_child(t, 'P', heap.val(arg))
+            v = heap.val(arg)
+            if isinstance(v, (glom.core.TType, Path)):     # (Path() would splice such a segment in)
+                t = glom.core._t_child(t, 'P', v)
+            else:
+                t = Path(t, v).path_t       # a path-style ('P') step, built the public way
         else:
             t = BIN[op](t, build_arg(arg, heap))
     return t
